@@ -491,7 +491,7 @@ func checkInvert(e *Env, p *load.Program) {
 		}
 		if ok {
 			for _, ret := range flow.Returns(fn) {
-				if len(ret.Results) != 1 || ret.Results[0] != mk {
+				if len(flow.RetResults(ret)) != 1 || flow.RetResults(ret)[0] != mk {
 					ok = false
 					detail = "a return does not return the freshly built map"
 				}
@@ -571,13 +571,13 @@ func checkGetInfo(e *Env, p *load.Program) {
 	rets := flow.Returns(fn)
 	nSucc := 0
 	for _, ret := range rets {
-		if len(ret.Results) != 2 {
+		if len(flow.RetResults(ret)) != 2 {
 			continue
 		}
 		key := "GetInfo/return"
-		if flow.IsNilConst(ret.Results[0]) {
+		if flow.IsNilConst(flow.RetResults(ret)[0]) {
 			// error return: the error must not be the nil constant
-			r.Check(!flow.IsNilConst(ret.Results[1]), "E4.getinfo", key+"/error", p.Pos(ret.Pos()), "nil Info comes with a non-nil error", "GetInfo returns (nil, nil)")
+			r.Check(!flow.IsNilConst(flow.RetResults(ret)[1]), "E4.getinfo", key+"/error", p.Pos(ret.Pos()), "nil Info comes with a non-nil error", "GetInfo returns (nil, nil)")
 			continue
 		}
 		nSucc++
@@ -602,8 +602,8 @@ func checkGetInfo(e *Env, p *load.Program) {
 				}
 			}
 		}
-		resOK := ret.Results[0] == val
-		r.Check(fok && fpol && lenOK && resOK && flow.IsNilConst(ret.Results[1]), "E4.getinfo", key+"/success", p.Pos(ret.Pos()),
+		resOK := flow.RetResults(ret)[0] == val
+		r.Check(fok && fpol && lenOK && resOK && flow.IsNilConst(flow.RetResults(ret)[1]), "E4.getinfo", key+"/success", p.Pos(ret.Pos()),
 			"the looked-up Info is returned only on the `found` edge and with a non-empty SyscallNames table: table-less architectures are unsupported",
 			fmt.Sprintf("GetInfo can return an Info without `found && len(SyscallNames) > 0` (found-edge=%v len-guard=%v returns-lookup=%v)", fok && fpol, lenOK, resOK))
 	}
